@@ -156,16 +156,46 @@ fn observe_poling(i: usize, tag: &str, s: &Setup) {
   let r_try = guarded(std::panic::AssertUnwindSafe(|| {
     PeriodicPoling::try_new_optimum(signal, pump, cs, Apodization::Off).map(|pp| met(pp.signed_period())).map_err(|e| e.0)
   }));
-  let r_spdc = guarded(std::panic::AssertUnwindSafe(|| {
-    let mut spdc = SPDC::new(
-      cs.clone(), signal.clone(), idler0.clone(), pump.clone(), 5e-9 * M, 1e-3 * W, 1e-2,
-      PeriodicPoling::On { period: 1e-5 * M, sign: Sign::POSITIVE, apodization: Apodization::Off }, 0. * M, 0. * M, 1e-12 * M / V,
-    );
-    match spdc.assign_optimum_periodic_poling() {
-      Ok(_) => Ok(met(spdc.pp.signed_period())),
-      Err(e) => Err(e.0),
-    }
-  }));
+  // SPDC::assign_optimum_periodic_poling / SPDC::optimum_periodic_poling / PeriodicPoling::try_as_optimum from an UNPOLED base,
+  // from a poled base of either sign (the result must not depend on the base, only the apodization is kept)
+  let bases: [(&str, PeriodicPoling); 3] = [
+    ("off", PeriodicPoling::Off),
+    ("on_pos", PeriodicPoling::On { period: 1e-5 * M, sign: Sign::POSITIVE, apodization: Apodization::Off }),
+    ("on_neg", PeriodicPoling::On { period: 3e-5 * M, sign: Sign::NEGATIVE, apodization: Apodization::Gaussian { fwhm: 1e-3 * M } }),
+  ];
+  let mut routes = serde_json::Map::new();
+  for (name, base) in bases.iter() {
+    let r_assign = guarded(std::panic::AssertUnwindSafe(|| {
+      let mut spdc = SPDC::new(
+        cs.clone(), signal.clone(), idler0.clone(), pump.clone(), 5e-9 * M, 1e-3 * W, 1e-2, base.clone(), 0. * M, 0. * M, 1e-12 * M / V,
+      );
+      match spdc.assign_optimum_periodic_poling() {
+        Ok(_) => Ok(met(spdc.pp.signed_period())),
+        Err(e) => Err(e.0),
+      }
+    }));
+    let r_opt = guarded(std::panic::AssertUnwindSafe(|| {
+      let spdc = SPDC::new(
+        cs.clone(), signal.clone(), idler0.clone(), pump.clone(), 5e-9 * M, 1e-3 * W, 1e-2, base.clone(), 0. * M, 0. * M, 1e-12 * M / V,
+      );
+      spdc.optimum_periodic_poling().map(|pp| met(pp.signed_period())).map_err(|e| e.0)
+    }));
+    let r_tao = guarded(std::panic::AssertUnwindSafe(|| {
+      base.clone().try_as_optimum(signal, pump, cs).map(|pp| (met(pp.signed_period()), pp.apodization() == base.apodization()))
+        .map_err(|e| e.0)
+    }));
+    let (tao, keeps) = match &r_tao {
+      Ok(Ok((p, k))) => (Ok(Ok(*p)), Some(*k)),
+      Ok(Err(e)) => (Ok(Err(e.clone())), None),
+      Err(m) => (Err(m.clone()), None),
+    };
+    routes.insert(format!("assign_optimum_periodic_poling[{}]", name), result_json(&r_assign));
+    routes.insert(format!("optimum_periodic_poling[{}]", name), result_json(&r_opt));
+    routes.insert(format!("try_as_optimum[{}]", name), result_json(&tao));
+    routes.insert(format!("try_as_optimum[{}].keeps_apodization", name), json!(keeps));
+  }
+  let r_spdc = Ok::<Result<f64, String>, String>(Ok(0.0));
+  let _ = &r_spdc;
   let sign_rule = guarded(std::panic::AssertUnwindSafe(|| PeriodicPoling::compute_sign(signal, pump, cs) == Sign::POSITIVE));
   // replica of the internal minimisation, from public API, with its evaluation table
   let length = met(cs.length);
@@ -208,7 +238,7 @@ fn observe_poling(i: usize, tag: &str, s: &Setup) {
     "indices": [fx(*signal.refractive_index(signal.frequency(), cs)), fx(*pump.refractive_index(pump.frequency(), cs)),
                 fx(*idler0.refractive_index(idler0.frequency(), cs))],
     "optimum_poling_period": result_json(&r_main), "try_new_optimum": result_json(&r_try),
-    "assign_optimum_periodic_poling": result_json(&r_spdc),
+    "routes": Value::Object(routes),
     "compute_sign_positive": match sign_rule { Ok(b) => json!(b), Err(m) => json!(m) },
     "replica": {"g0": fx(guess), "g1": fx(guess + 1e-6), "max_iter": 1000, "min": fx(f64::MIN_POSITIVE), "max": fx(length), "tol": fx(1e-12),
                 "result": match &r_rep { Ok(x) => json!({"ok": true, "x": fx(*x)}), Err(m) => json!({"ok": false, "panic": m}) },
